@@ -73,6 +73,11 @@ def mkSetter (specs : List (Key × Json)) : Except String (Key → List (Key × 
       pure (k, fun (m : List (Key × Val)) => match Val.dlookup m dep with
         | none => SetterResult.keyError
         | some _ => SetterResult.ok (.int 1))
+    | "index" =>
+      let dep ← keyOfJson (← s.getObjVal? "dep")
+      pure (k, fun (m : List (Key × Val)) => match Val.dlookup m dep with
+        | none => SetterResult.other "IndexError"
+        | some _ => SetterResult.ok (.int 1))
     | "raise" => pure (k, fun _ => SetterResult.other "boom")
     | "keyerr" => pure (k, fun _ => SetterResult.keyError)
     | "const" =>
